@@ -18,7 +18,7 @@ RULE = ('cases = acyclic rule sets (1-4 rules, rule: references to lower rules) 
         'sides literal or well-formed %(name)s; credentials from a recursive generator (every JSON type at every path '
         'position, hostile keys); flat targets with every JSON type; do_raise off/on. L = leaf-only rules whose left side '
         'certainly cannot be evaluated: must deny. N = rule texts that are not sentences (lone quoted token, lone operator, '
-        'unbalanced parenthesis), alone and referenced from other rules. T = one target mapping kept by the caller and edited '
+        'unbalanced parenthesis), alone and referenced from other rules. D = a referenced rule removed from the living store (del / pop / same check trees under an enforcer that lacks it): the reference denies. F = a policy file overriding a registered policy with a list-of-lists rule. T = one target mapping kept by the caller and edited '
         'between calls (key deleted / value replaced): same decision as a fresh equal mapping. Non-trivial = the rule contains a left side that is not a plain '
         'identifier path; distinct = distinct (rules, target, creds).')
 ASSUMPTIONS = ['roles in credentials are a list of strings (the statement\'s precondition)',
@@ -28,7 +28,7 @@ LEVEL_TEXT = ('Seeded hostile fuzzing with an exception-surface oracle; the inpu
               'fragment-based generator plus a curated alphabet is the appropriate level (no finite enumeration exists).')
 LEVEL_NOTE = 'trusted: the list of documented exceptions taken from the statement; the curated "certainly unevaluable" list'
 PLAN = {'quick': dict(shards=4, wall=60), 'thorough': dict(shards=16, wall=400)}
-MIN = {'same_target_comparisons': 500, 'evaluations': 5000, 'enforce_calls': 10000, 'hostile_leaves': 5000, 'unevaluable_leaf_rules': 500}
+MIN = {'deleted_reference_decisions': 100, 'file_override_enforce_calls': 100, 'same_target_comparisons': 500, 'evaluations': 5000, 'enforce_calls': 10000, 'hostile_leaves': 5000, 'unevaluable_leaf_rules': 500}
 ANCHORS = ['oslo_policy._checks:GenericCheck.__call__', 'oslo_policy._checks:GenericCheck._find_in_dict',
            'oslo_policy._checks:RoleCheck.__call__', 'oslo_policy.policy:Enforcer.enforce']
 REQUIRED_ANCHORS = ['oslo_policy.policy:Enforcer.enforce']
@@ -98,6 +98,12 @@ def gen_case(rnd):
     for k in ('t', 't2', 'a.b', 'roles'):
         if rnd.random() < 0.6:
             target[k] = rnd.choice([None, True, 1, 1.5, 'x', "['x']", '', [], {'a': 1}, 'r', 'R', 10 ** 30])
+    if rnd.random() < 0.01:
+        return dict(kind='D', how=rnd.choice(['del', 'pop', 'shared-trees']), rules={}, target={}, creds={}, do_raise=False)
+    if rnd.random() < 0.01:
+        return dict(kind='F', rules={}, target={}, creds={}, do_raise=False, fmt=rnd.choice(['json', 'yaml']),
+                    value=rnd.choice([[['role:r']], [['role:r', 'role:admin'], ['@']], ['role:r'], [], [[]], 'role:r or role:admin',
+                                      [['role:r'], 'rule:other'], 5, True, {'a': 1}, 1.5]))
     if rnd.random() < 0.04:
         # a rule text that is not a sentence at all (C02 says it denies; here: it must not crash enforcement, alone or
         # referenced from another rule)
@@ -188,10 +194,73 @@ def check_same_target_object(ctx, real, case):
                 return
 
 
+def check_deleted_reference(ctx, real, case):
+    """A rule that other rules reference is removed from the living rule store (del / pop): a reference that can no
+    longer be resolved denies - it neither raises nor keeps deciding by the vanished definition."""
+    policy, enf = real
+    rules = {'adm': 'role:admin', 'op': 'rule:adm', 'op2': 'role:x or rule:adm', 'op3': 'not rule:adm', 'keep': 'role:admin'}
+    creds = {'roles': ['admin']}
+    enf.set_rules(policy.Rules.from_dict(rules))
+    ctx.case(['deleted-reference', case['how']], nontrivial=True, stratum='D')
+    first = {}
+    for n in ('op', 'op2', 'op3', 'keep'):
+        first[n] = bool(enf.enforce(n, {}, dict(creds)))
+    if case['how'] == 'del':
+        del enf.rules['adm']
+    elif case['how'] == 'pop':
+        enf.rules.pop('adm')
+    else:
+        other = policy.Enforcer(env.fresh_conf(), use_conf=False)      # the same check trees handed to a second enforcer that lacks `adm`
+        other.set_rules(policy.Rules({k: v for k, v in enf.rules.items() if k != 'adm'}))
+        enf = other
+    want = {'op': False, 'op2': False, 'op3': True, 'keep': True}
+    for n, w in want.items():
+        try:
+            got = bool(enf.enforce(n, {}, dict(creds)))
+        except Exception as e:
+            got = 'EXC:' + type(e).__name__
+        ctx.count('deleted_reference_decisions')
+        if got != w:
+            ctx.violation('unresolvable-reference-does-not-deny' if not isinstance(got, str) else 'undocumented-exception-' + got[4:],
+                          case, {'rules': rules, 'removed': 'adm', 'how': case['how'], 'enforced': n, 'expected': w, 'observed': got})
+            return
+
+
+def check_file_override_of_registered(ctx, real, case):
+    """A policy file overrides a REGISTERED policy with a rule in the legacy list-of-lists spelling (or with a text
+    rule): loading and enforcing must not raise."""
+    policy, _ = real
+    from pv.gen import files
+    tree = files.Tree(dirs=())
+    try:
+        tree.write('policy.yaml', {'reg': case['value'], 'other': 'role:r'}, case['fmt'])
+        enf = policy.Enforcer(tree.conf(policy_dirs=[]))
+        enf.register_default(policy.RuleDefault('reg', 'role:admin'))
+        ctx.case(['file-override', case['value'], case['fmt']], nontrivial=True, stratum='F')
+        for creds in ({'roles': ['r']}, {'roles': ['admin', 'r']}, {'roles': []}):
+            for _ in range(2):
+                try:
+                    enf.enforce('reg', {}, dict(creds))
+                    exc = None
+                except Exception as e:
+                    exc = e
+                ctx.count('file_override_enforce_calls')
+                if exc is not None and type(exc).__name__ not in DOCUMENTED:
+                    ctx.violation('undocumented-exception-' + type(exc).__name__, case,
+                                  {'file_rule': case['value'], 'format': case['fmt'], 'observed': '%s: %s' % (type(exc).__name__, str(exc)[:120])})
+                    return
+    finally:
+        tree.cleanup()
+
+
 def check_case(ctx, real, case):
     policy, enf = real
     if case['kind'] == 'T':
         return check_same_target_object(ctx, real, case)
+    if case['kind'] == 'D':
+        return check_deleted_reference(ctx, real, case)
+    if case['kind'] == 'F':
+        return check_file_override_of_registered(ctx, real, case)
     ctx.case([case['rules'], case['target'], case['creds']], nontrivial=True, stratum=case['kind'])
     ctx.count('hostile_leaves', case.get('hostile', 1))
     try:
